@@ -29,23 +29,27 @@ import (
 
 // C07Scenario is one compilation.
 type C07Scenario struct {
-	FileSeed      uint64  `json:"file_seed"`
-	Records       int     `json:"records"`
-	Nets          int     `json:"nets"`
-	BadLine       bool    `json:"bad_line,omitempty"`
-	Target        string  `json:"target"` // "cdb", "rdb1", "rdb2"
-	Workers       int     `json:"workers"`
-	Builder       bool    `json:"builder,omitempty"`
-	BatchSize     int     `json:"batch_size,omitempty"`
-	BatchParallel int     `json:"batch_parallel"`
-	FreeRunning   bool    `json:"free_running,omitempty"` // big files: real parallelism, hooks in perturbation mode
-	ReadSizes     []int   `json:"read_sizes,omitempty"`
-	ReadErrAt     int     `json:"read_err_at"` // -1 = never
-	FailCall      int     `json:"fail_call"`   // index of the low-level RocksDB call of the compilation that fails (-1 = none)
-	NoFinalNL     bool    `json:"no_final_newline,omitempty"`
-	Tape          []uint8 `json:"tape"`
-	TapeSeed      uint64  `json:"tape_seed"`
-	Calm          int     `json:"calm"`
+	FileSeed      uint64 `json:"file_seed"`
+	Records       int    `json:"records"`
+	Nets          int    `json:"nets"`
+	BadLine       bool   `json:"bad_line,omitempty"`
+	Target        string `json:"target"` // "cdb", "rdb1", "rdb2"
+	Workers       int    `json:"workers"`
+	Builder       bool   `json:"builder,omitempty"`
+	BatchSize     int    `json:"batch_size,omitempty"`
+	BatchParallel int    `json:"batch_parallel"`
+	FreeRunning   bool   `json:"free_running,omitempty"` // big files: real parallelism, hooks in perturbation mode
+	ReadSizes     []int  `json:"read_sizes,omitempty"`
+	ReadErrAt     int    `json:"read_err_at"` // -1 = never
+	FailCall      int    `json:"fail_call"`   // index of the low-level RocksDB call of the compilation that fails (-1 = none)
+	// MinBucket / MaxBuckets > 0 replace the bulk loader's bucket parameters (30000 items, one bucket
+	// per CPU) for this compilation, so that small files are split into several sorted buckets too
+	MinBucket  int     `json:"min_bucket,omitempty"`
+	MaxBuckets int     `json:"max_buckets,omitempty"`
+	NoFinalNL  bool    `json:"no_final_newline,omitempty"`
+	Tape       []uint8 `json:"tape"`
+	TapeSeed   uint64  `json:"tape_seed"`
+	Calm       int     `json:"calm"`
 
 	failedCall string // which low-level call was failed in this run ("" = none was reached)
 }
@@ -96,6 +100,10 @@ func drawC07(rt *rapid.T, tier string) C07Scenario {
 	if rapid.IntRange(0, 7).Draw(rt, "read_err") == 0 {
 		sc.ReadErrAt = rapid.IntRange(0, 4000).Draw(rt, "read_err_at")
 	}
+	if sc.Target != "cdb" && sc.Builder && sc.Records < 60000 && rapid.IntRange(0, 1).Draw(rt, "small_buckets") == 0 {
+		sc.MinBucket = rapid.SampledFrom([]int{1, 2, 3, 7, 40}).Draw(rt, "min_bucket")
+		sc.MaxBuckets = rapid.SampledFrom([]int{2, 3, 4, 5, 16}).Draw(rt, "max_buckets")
+	}
 	if sc.Target != "cdb" && sc.ReadErrAt < 0 && !sc.BadLine && rapid.IntRange(0, 7).Draw(rt, "rocksdb_err") == 0 {
 		// a failing low-level RocksDB call inside the compilation (GetMulti / ExecuteBatch of a batch,
 		// IngestSSTFiles of the builder, ...)
@@ -122,6 +130,9 @@ func (sc *C07Scenario) settings() string {
 		return fmt.Sprintf("cdb workers=%d", sc.Workers)
 	}
 	if sc.Builder {
+		if sc.MinBucket > 0 {
+			return fmt.Sprintf("%s builder workers=%d buckets>=%d,<=%d", sc.Target, sc.Workers, sc.MinBucket, sc.MaxBuckets)
+		}
 		return fmt.Sprintf("%s builder workers=%d", sc.Target, sc.Workers)
 	}
 	return fmt.Sprintf("%s batches size=%d parallel=%d workers=%d", sc.Target, sc.BatchSize, sc.BatchParallel, sc.Workers)
@@ -151,6 +162,10 @@ func compileOnce(sc *C07Scenario, in io.Reader, dir string) (dump.DB, error) {
 	}
 	opts := rdb.CompilationOptions{NumCPU: sc.Workers, UseV2KeySyntax: sc.Target == "rdb2", UseBuilder: sc.Builder,
 		BatchNumParallel: sc.BatchParallel, BatchSize: sc.BatchSize}
+	if sc.MinBucket > 0 && sc.Builder {
+		rdb.VerifSetBuckets(sc.MinBucket, sc.MaxBuckets)
+		defer rdb.VerifSetBuckets(0, 0)
+	}
 	if sc.FailCall >= 0 {
 		fi := &mon.FaultyRDBI{FailAt: map[int]bool{sc.FailCall: true}, OnFail: func(call string, _ int) { sc.failedCall = call }}
 		rdb.VerifSetCompileWrap(func(d rdb.DBI) rdb.DBI { fi.DBI = d; return fi })
@@ -275,6 +290,9 @@ func runC07(t *testing.T, sc C07Scenario, keep bool) *core.Result {
 		k, v := want.Count()
 		if v > k {
 			res.Probe("multi_value_keys")
+		}
+		if sc.MinBucket > 0 && sc.Builder && sc.Target != "cdb" && v > sc.MinBucket*2 {
+			res.Probe("small_file_in_several_buckets")
 		}
 	}
 	res.Nontrivial = len(lines) > 3
